@@ -185,7 +185,18 @@ pub fn worker() -> Handler {
             let src = brush_core::SourceInfo::default();
             let _ = sh.run_string(format!("{PARENT_SETUP}{mode_setup}"), &src, &params).await;
             let before = dump(&sh);
-            let fds_before = std::fs::read_dir("/proc/self/fd").map(|d| d.count()).unwrap_or(0);
+            // descriptors of the PROCESS: stragglers of the previous case (an unwaited process substitution)
+            // may still be closing theirs; take the count once it has been stable for 3 ms
+            let count_fds = || std::fs::read_dir("/proc/self/fd").map(|d| d.count()).unwrap_or(0);
+            let mut fds_before = count_fds();
+            for _ in 0..100 {
+                tokio::time::sleep(std::time::Duration::from_millis(3)).await;
+                let n = count_fds();
+                if n == fds_before {
+                    break;
+                }
+                fds_before = n;
+            }
             let r = sh.run_string(script.clone(), &src, &params).await;
             for _ in 0..10 {
                 tokio::task::yield_now().await;
@@ -196,7 +207,17 @@ pub fn worker() -> Handler {
                 Err(e) => format!("error {e}"),
             };
             let after = dump(&sh);
-            let fds_after = std::fs::read_dir("/proc/self/fd").map(|d| d.count()).unwrap_or(0);
+            // asynchronous contexts (process substitution, coprocess) may still be running: a leak is a count
+            // that does not come back within half a second
+            let mut fds_after = count_fds();
+            for _ in 0..100 {
+                // (a coprocess legitimately leaves its two descriptors in the parent: nothing to wait for)
+                if fds_after == fds_before || script.starts_with("coproc") {
+                    break;
+                }
+                tokio::time::sleep(std::time::Duration::from_millis(5)).await;
+                fds_after = count_fds();
+            }
             let (mut before, mut after) = (before, after);
             if script.starts_with("coproc") {
                 // a coprocess legitimately leaves its two descriptors in the parent
